@@ -185,17 +185,17 @@ pub fn merge(accs: Vec<Acc>) -> Acc {
 pub fn run(tier: Tier) -> Report {
     let mut rep = Report::new("C02", tier, "model_checking");
     let all: Vec<Shell> = SHELLS.iter().map(|(s, _)| *s).collect();
-    let k = tier.pick(5, 6);
-    let (km, k1, k2) = tier.pick((3, 2, 1), (4, 3, 2));
+    let k = tier.pick(6, 7);
+    let (km, k1, k2) = tier.pick((3, 3, 2), (4, 3, 3));
     let n = crate::par::nthreads();
     let accs = crate::par::run(
         n,
         |push| {
-            crate::fam::single_call(crate::fam::v0(), k, &mut |g| push(g));
-            crate::fam::with_defs(km, k1, k2, &mut |g| push(g));
             for g in crate::corpus::grammars() {
                 push(g);
             }
+            crate::fam::with_defs(km, k1, k2, &mut |g| push(g));
+            crate::fam::single_call(crate::fam::v0(), k, &mut |g| push(g));
         },
         || Acc { samples: Some(Samples::new(4)), ..Default::default() },
         |acc, g| work(acc, g, &all),
